@@ -271,6 +271,16 @@ func c13PackageJSON(p *Prog, r *Report) {
 	}
 	// innermost loop containing the setters = the per-update loop
 	hdr := loopHeaderOf(sets[0].Block())
+	// (the setters may sit in an inner loop over the manifest's sections: the per-update loop is
+	// then the enclosing one that ranges over the updates of a patch)
+	for h := hdr; h != nil && h.Idom() != nil; h = loopHeaderOf(h.Idom()) {
+		if coll, _, ok := loopScansAll(h); ok {
+			if _, f, _, isF := fieldOf(loadAddr(coll)); isF && f == "PackageUpdates" {
+				hdr = h
+				break
+			}
+		}
+	}
 	if hdr == nil {
 		r.Fail("D3-applied-or-error", fa.key+":loop", p.Pos(sets[0].Pos()), "updates are not applied in a loop over the requested updates")
 		return
@@ -354,6 +364,17 @@ func c13PackageJSON(p *Prog, r *Report) {
 // tests a phi (or its negation) whose value on this path is a known constant, only the consistent
 // edge is followed. Locals re-initialised inside the loop body therefore behave as in execution.
 func findPathPS(from Point, goal, avoid func(ssa.Instruction) bool, stopAt *ssa.BasicBlock) []string {
+	return findPathPSx(from, -1, goal, avoid, stopAt)
+}
+
+// findPathPSEdge: the same search started by taking the edge ed (so that the boolean phis of its
+// target take the values this edge gives them: the `a || b` of a `case a || b:` is true when the
+// edge is a's true edge).
+func findPathPSEdge(ed Edge, goal, avoid func(ssa.Instruction) bool) []string {
+	return findPathPSx(Point{ed.From, len(ed.From.Instrs) - 1}, ed.Succ, goal, avoid, nil)
+}
+
+func findPathPSx(from Point, firstSucc int, goal, avoid func(ssa.Instruction) bool, stopAt *ssa.BasicBlock) []string {
 	type state struct {
 		b    *ssa.BasicBlock
 		from int
@@ -405,7 +426,9 @@ func findPathPS(from Point, goal, avoid func(ssa.Instruction) bool, stopAt *ssa.
 		for k := range it.st.b.Succs {
 			allowed = append(allowed, k)
 		}
-		if ifi := blockIf(it.st.b); ifi != nil {
+		if it == start && firstSucc >= 0 {
+			allowed = []int{firstSucc}
+		} else if ifi := blockIf(it.st.b); ifi != nil {
 			inner, flip := stripNot(ifi.Cond)
 			if ph, ok := inner.(*ssa.Phi); ok {
 				if v, known := it.vals[ph]; known {
@@ -686,7 +709,7 @@ func c13Addressed(p *Prog, r *Report) {
 		ok2 := !reachable(readBlk, edgesOf(eqEdges), nil)[b]
 		r.Check(ok2, "D7-addressed-only", site, p.Pos(set.Pos()), "rewritten only on the current == original edge", "an entry of package.json can be rewritten although its current constraint differs from the update's original version (e.g. the package is also listed, with another constraint, in a lower-priority section): a requirement the patch did not address is changed")
 	})
-	r.Instances("D7-addressed-only", "sjson.Set calls in the package.json writer", n, 3)
+	r.Instances("D7-addressed-only", "sjson.Set calls in the package.json writer", n, 1)
 }
 
 // loadAddrDeep strips loads and field selections down to the value a method receiver was taken from.
